@@ -312,6 +312,9 @@ char* Arena::sformat(const char* fmt, ...) noexcept {
 // =============================
 
 void* Arena::_alloc_reusable(size_t size, Out<size_t> allocated_size) noexcept {
+#if defined(ASMJIT_VERIF)
+  ASMJIT_VERIF_ARENA_FAULT_POINT(size);
+#endif
   // Use the memory pool only if the requested block has a reasonable size.
   size_t slot;
   if (_get_reusable_slot_index(size, Out(slot), allocated_size)) {
